@@ -205,8 +205,13 @@ def sym_round(x, ndigits=None):
         r = round(float(fr), ndigits)
         return SymReal(term_of(r))
     r = f(t)
-    _ax("|round_n(x)-x|<=0.5*10^-n; round_n(round_n(x))=round_n(x)")
-    ctx.axiom(z3.And(r - t <= half, t - r <= half, f(r) == r), ("round", r.get_id()))
+    _ax("|round_n(x)-x|<=0.5*10^-n; round_n(round_n(x))=round_n(x); round_n(0)=0; round_n(1)=1")
+    # representable values are fixed points: instantiated for 0 and 1, the literals the code
+    # compares rounded attributes with (opacity defaults)
+    ctx.axiom(
+        z3.And(r - t <= half, t - r <= half, f(r) == r, z3.Implies(t == 0, r == 0), z3.Implies(t == 1, r == 1)),
+        ("round", r.get_id()),
+    )
     if ctx.opts.get("round_integral"):
         # the rounded value is a multiple of 10^-n: pins the model to the real
         # round() (up to ties), so that witnesses replay with floats
